@@ -295,6 +295,11 @@ package stats
 //@   modifies *
 
 // ---- C08: a name on the statistics ignore list, or an ignored client, is never counted ----
+// stOK: the verdict of the most recent ShouldCount asked through the interface (what the DNS server sees).
+//@ ghost var stOK bool
+//@ func (s Interface) ShouldCount(host string, qt uint16, cl uint16, ids []string) (r0 bool)
+//@   ghost at return: stOK = r0
+//@   modifies stOK
 //@ func (s *StatsCtx) ShouldCount(host string, _p1 uint16, _p2 uint16, ids []string) (r0 bool)
 //@   property C08
 //@   requires !held(s.confMu) && !rheld(s.confMu)
